@@ -9,6 +9,9 @@ def _c20_case(c):
         return {"op": "R", "registry": unhex(p[1]), "repository": unhex(p[2]), "input": unhex(p[3])}
     if p[0] in ("W", "F"):
         return {"op": "F", "registry": unhex(p[1]), "repository": unhex(p[2]), "reference": unhex(p[3])}
+    if p[0] == "T":
+        return {"op": "T", "plain": "true" if p[1] == "1" else "false", "registry": unhex(p[2]), "repository": unhex(p[3]),
+                "input": unhex(p[4]), "dsts": "\x00".join(unhex(x) for x in p[6:])}
     if p[0] == "N":
         return {"op": "N", "kind": p[1], "input": unhex(p[2]), "reference": unhex(p[3])}
     if p[0] == "E":
